@@ -194,7 +194,15 @@ def post_to_crs(args, kw, res, exc, snap):
     r = res.geom
     pa, pb = _parts(src_geom), _parts(r)
     if res.crs != target or r.geom_type != g.geom_type or [p[0] for p in pa] != [p[0] for p in pb] or [[len(c) for c in p[1]] for p in pa] != [[len(c) for c in p[1]] for p in pb]:
-        return _mon.fail("Geometry.to_crs", wit({"why": "crs / type / part structure / vertex count changed", "out": r.wkt[:200], "out_crs": str(res.crs)[:30]}), key="to_crs-structure", cls=g.geom_type)
+        key = "to_crs-structure"
+        if wrapdateline and res.crs == target and len(pb) > len(pa) and not g.is_empty:
+            # K6: cut into more parts although no vertex is within 10 degrees of the antimeridian; same point set (area / length preserved against the un-chopped conversion)
+            with oracle_section():
+                plain = self.to_crs(target, resolution) if resolution is not None else self.to_crs(target)
+            same_set = abs(r.area - plain.geom.area) <= 1e-6 * max(plain.geom.area, 1e-300) and abs(r.length - plain.geom.length) <= 0.5 * max(r.length, 1e-300)
+            if same_set:
+                key = "antimeridian-chop-far-from-antimeridian"
+        return _mon.fail("Geometry.to_crs", wit({"why": "crs / type / part structure / vertex count changed", "out": r.wkt[:200], "out_crs": str(res.crs)[:30], "wrapdateline": bool(wrapdateline), "parts": [len(pa), len(pb)]}), key=key, cls=g.geom_type)
     tr = gen.transformer(self.crs.proj.to_wkt(), target.proj.to_wkt())
     worst = 0.0
     for (t, ra), (_, rb) in zip(pa, pb):
@@ -368,6 +376,10 @@ def drive_to_crs(mon: Monitor, rng: random.Random, n: int) -> None:
         d = float(np.abs(a - b).max())
         mon.check(d <= bound, "roundtrip", lambda: {"src": e1[0], "dst": e2[0], "max_abs_diff": d, "bound": bound, "kind": kind}, key="roundtrip-precision",
                   cls=("datum-shift" if shift else "same-datum"), sig=hsig("rt", e1[0], e2[0], a.tobytes()))
+    # K6 witness (British National Grid, easting 177424 m): reproduced on every run
+    import shapely.geometry as sg
+
+    call(G.Geometry(sg.Polygon([(176164.0, 404451.0), (180113.0, 404266.0), (180421.0, 410888.0), (176478.0, 411073.0)]), "EPSG:27700").to_crs, "EPSG:4326", 680.0, wrapdateline=True)
     # same CRS in another spelling returns the very same object; no CRS refuses
     for _ in range(max(20, n // 50)):
         shp = make_shape(rng, rng.choice(KINDS[:9]), (10.0, 20.0), 1.0)
